@@ -20,8 +20,11 @@ degrees are `DSymData.mPartial`, for a plain D-set the default `m` of the trait
   is still unassigned, and `self.m` used for both chambers); it is kept for the documented
   counter-example (`Props/C04.lean`, `d3_pinned_accepts_wrong_map`).
 * `Partition<usize>` (union–find in /repo/src/util/partitions.rs) is modelled by its
-  *class function* `find : Nat → Nat`: `Partition::new()` is the identity (an element never
-  seen is its own class), `unite(a, b)` relabels the class of `b` with the label of `a`.
+  *class table* `Part`: a finite list of (element, class label) pairs for the elements that
+  are not alone in their class; `find x` is the label (an element never seen is its own
+  class: `Partition::new()` is the empty table), `unite(a, b)` relabels the class of `b` with
+  the label of `a` (`find_unite` in Proofs/MorphismFold.lean: afterwards
+  `find x = if find x = find b then find a else find x`).
   The Rust structure returns a rank-dependent representative instead; `fold`, `is_minimal`
   use `find` only in the test `p.find(&d) != p.find(&e)`, and `minimal_image` uses the
   representative `e = p.find(&d)` only (a) as a key into `src2img` (any fixed member of the
@@ -149,20 +152,33 @@ def automorphisms (a : MV) : Outcome (List (Array Nat)) := autLoop (morphism a a
 def automorphismsPinned (a : MV) : Outcome (List (Array Nat)) :=
   autLoop (morphismPinned a a) a.elements
 
-/-! ### `Partition<usize>` as a class function, `fold`, `is_minimal` -/
+/-! ### `Partition<usize>` as a class table, `fold`, `is_minimal` -/
+
+/-- (element, class label) for every element that has been united with another one -/
+structure Part where
+  tbl : List (Nat × Nat)
+
+def lookupLab : List (Nat × Nat) → Nat → Option Nat
+  | [], _ => none
+  | (k, l) :: t, x => if k = x then some l else lookupLab t x
 
 /-- `p.find(&x)` up to the choice of representative (see the header) -/
-abbrev Part := Nat → Nat
+def Part.find (p : Part) (x : Nat) : Nat :=
+  match lookupLab p.tbl x with
+  | some l => l
+  | none => x
+
+instance : CoeFun Part (fun _ => Nat → Nat) := ⟨Part.find⟩
 
 /-- `Partition::new()` -/
-def Part.new : Part := fun x => x
+def Part.new : Part := ⟨[]⟩
 
-/-- `p.unite(&a, &b)`: the class of `b` gets the label of `a` (the two labels are computed once,
-    when the closure is built, so that a chain of k unions answers `find` in O(k)) -/
+/-- `p.unite(&a, &b)`: the class of `b` gets the label of `a` -/
 def Part.unite (p : Part) (a b : Nat) : Part :=
-  let pa := p a
-  let pb := p b
-  fun x => let px := p x; if px = pb then pa else px
+  let pa := p.find a
+  let pb := p.find b
+  let t := p.tbl.map (fun kl => (kl.1, if kl.2 = pb then pa else kl.2))
+  ⟨if (lookupLab p.tbl pb).isSome then t else (pb, pa) :: t⟩
 
 /-- the `for i in 0..=self.dim()` loop of `fold` after `p.unite(&d, &e)`;
     `none` = `return None` -/
